@@ -172,3 +172,9 @@ func verifLemmaBaseOrientationMultiplicative(f Feature) (o1 Orientation, r1 Feat
 //@   loop 1 invariant f != nil ==> ori * oriTo(f, ref) == oriTo(old(f), ref)
 //@   loop 1 invariant f == nil ==> oriTo(old(f), ref) == 0
 //@   loop 1 decreases 1000 - n
+
+// ParseMoltype: a map lookup (maps are outside the verified subset); total, no effects.
+//@ func ParseMoltype
+//@   trusted
+//@   pure
+//@   ensures -1 <= result && result <= 2
